@@ -11,4 +11,5 @@ INVARIANT MemSafe
 INVARIANT WellFormed
 INVARIANT Refines
 INVARIANT Bounded
+INVARIANT IterRefines
 CHECK_DEADLOCK FALSE
